@@ -164,8 +164,52 @@ def extra_checks(tier, seed):
     bad = [(c, m, i) for c, m, i in zip(cases, mo, io) if m != i]
     fired = sum(1 for o in mo for st in o[2] if sum(1 for it in st[0] if it[0] == 8) >= 2)
     detail = dict(cases=len(cases), disagreements=len(bad), calls_with_two_or_more_on_final_items=fired)
+    out = []
     if bad:
         c, m, i = bad[0]
-        return [('async_suspending_on_final', False, detail,
-                 dict(kind='counterexample', stream='HierarchicalAsyncMachine with suspending on_final callbacks', case=c, model_obs=m, impl_obs=i))]
-    return [('async_suspending_on_final', True, detail, {})]
+        out.append(('async_suspending_on_final', False, detail,
+                    dict(kind='counterexample', stream='HierarchicalAsyncMachine with suspending on_final callbacks', case=c, model_obs=m, impl_obs=i)))
+    else:
+        out.append(('async_suspending_on_final', True, detail, {}))
+    out.append(flat_stream(tier, seed))
+    return out
+
+
+def flat_stream(tier, seed):
+    """theorem C18_flat on the real flat classes: flat machines in which most states are final and every machine has
+    on_final callbacks; reflexive transitions into final states, internal transitions (no on_final), blocked ones"""
+    import flat
+    import framework as F
+    n = 300 if tier == 'quick' else 10000
+    cases = []
+    for i in range(n):
+        rng = random.Random('C18f-%d-%d' % (seed, i))
+        c = flat.gen_case(rng, malformed=False, p_unknown=0.0)
+        for s, d in c['machine']['states']:
+            d['final'] = rng.random() < 0.6
+        if not c['machine']['on_final']:
+            c['machine']['on_final'] = [5298]
+        c['env'] = dict(default=True, bypos={p: (r[0], None, []) for p, r in c['env']['bypos'].items() if r[1] is None},
+                        bycb={k: (r[0], None, []) for k, r in c['env']['bycb'].items() if r[1] is None})
+        c['history'] = [(0, e, a) for (k, e, a) in c['history']]
+        c['cls'] = flat.SYNC_CLASSES[i % len(flat.SYNC_CLASSES)]
+        cases.append(c)
+    mo = F.run_model(0, [flat.enc_case(c) for c in cases])
+    io = F.run_impl('flat', 'impl_flat', cases)
+    bad = [(c, m, i) for c, m, i in zip(cases, mo, io) if m != i]
+    fired = sum(1 for o in mo if isinstance(o, list) and o[0] == 1 for st in o[1] if any(it[0] == 8 for it in st[0]))
+    reflexive = 0
+    for c, o in zip(cases, mo):
+        if isinstance(o, list) and o[0] == 1:
+            prev = c['init']
+            for st in o[1]:
+                if st[1] == [0, True] and st[2] == prev and any(it[0] == 8 for it in st[0]):
+                    reflexive += 1
+                prev = st[2]
+    detail = dict(cases=len(cases), disagreements=len(bad), calls_firing_on_final=fired,
+                  reflexive_transitions_into_a_final_state=reflexive)
+    if bad:
+        c, m, i = bad[0]
+        return ('flat_on_final', False, detail,
+                dict(kind='counterexample', stream='flat machines with final states', case=c, model_obs=m, impl_obs=i))
+    return ('flat_on_final', True, detail, {})
